@@ -368,6 +368,7 @@ func runC13StartAtBoundary(cases []string, out *bufio.Writer, _ []string) {
 				id := fmt.Sprintf("%d.%d", r, i)
 				tw := time.Now()
 				s.a.Write(mkLine(id, 10))
+				twEnd := time.Now() // should this goroutine be descheduled across a second boundary inside the call, either second is right
 				s.a.Stop()
 				ok := false
 				ents, _ := os.ReadDir(s.dir)
@@ -376,7 +377,7 @@ func runC13StartAtBoundary(cases []string, out *bufio.Writer, _ []string) {
 					data, _ := os.ReadFile(filepath.Join(s.dir, e.Name()))
 					if bytes.Contains(data, []byte("<id:"+id+">")) {
 						names = append(names, e.Name())
-						if nameToUnix(e.Name()) == tw.Unix() {
+						if u := nameToUnix(e.Name()); u >= tw.Unix() && u <= twEnd.Unix() {
 							ok = true
 						}
 					}
